@@ -27,6 +27,9 @@ CHECKS = {
  "C11": ("runtime round-trip monitor: Constraint -> Set.String() -> ParseSetConstraint, equality of print form and of prerelease-inclusive matching on boundary candidates",
          "Exploration over generated constraints of Default, NPM, Cargo, Go and NuGet with forced coverage of multi-span sets, infinity components, prerelease bounds and the empty set.",
          "Candidates are derived from the printed bounds; agreement elsewhere is not observed.", "§6 C11"),
+ "C19": ("runtime model monitor: operation sequences on dep.Type / version.AttrSet replayed against a {flags, key->value} model, order laws over all triples, clone-independence re-verified after every operation, text round trips through the public schema API; race-detector build of a concurrent clone workload",
+         "Exploration: every live value is re-checked against its model after every operation of every generated sequence; Compare/Equal matrices against model equality and the order laws; six text forms through schema.ParseResolve, Graph.String and schema.New; a -race child uses original and clone from two goroutines.",
+         "Values a text form cannot spell (listed in evidence: e.g. '|' on a graph line) are replaced before writing; the race detector reports only executed races.", "§6 C19"),
 }
 NOT_YET = {}
 
